@@ -168,7 +168,7 @@ class Native:
             with self.lock:
                 if key not in self.real:
                     o = os.path.join(self.work, 'real_%s_%s.o' % (hashlib.md5(s.encode()).hexdigest()[:8], 'san' if san else 'plain'))
-                    fl = ['-fsanitize=address,undefined', '-fno-sanitize-recover=undefined', '-fno-omit-frame-pointer'] if san else []
+                    fl = ['-fsanitize=address,undefined', '-fno-sanitize=vptr', '-fno-sanitize-recover=undefined', '-fno-omit-frame-pointer'] if san else []
                     r = sh(['g++', '-c', '-O1', '-g'] + fl + [d for d in CXXDEFS if d != '-DPISTACHE_VERIF_HOOKS'] + ['-DPISTACHE_VERIF_HOOKS', '-w', s, '-o', o])
                     if r.returncode: raise Broken('g++ failed for %s:\n%s' % (s, r.stdout[-3000:]))
                     self.real[key] = o
@@ -179,7 +179,7 @@ class Native:
         exe = os.path.join(self.work, tag + '.real')
         ho = exe + '.h.o'
         dd = ['-D%s=%s' % (k, v) if v is not None else '-D' + k for k, v in defs.items()]
-        r = sh(['gcc', '-c', '-O0', '-g', '-fsanitize=address,undefined', '-w', '-DNATIVE', '-DREAL', '-I', MODELS, '-I', HARNESS] + dd + [harness_c, '-o', ho])
+        r = sh(['gcc', '-c', '-O0', '-g', '-fsanitize=address,undefined', '-fno-sanitize=vptr', '-w', '-DNATIVE', '-DREAL', '-I', MODELS, '-I', HARNESS] + dd + [harness_c, '-o', ho])
         if r.returncode: raise Broken('gcc failed for native harness %s:\n%s' % (tag, r.stdout[-3000:]))
         objs = self.real_objs(list(srcs) + list(extra_cc))
         r = sh(['g++', '-fsanitize=address,undefined', ho] + objs + ['-o', exe, '-lpthread'])
